@@ -7,6 +7,7 @@ import (
 	"errors"
 	"io"
 	"net"
+	"runtime"
 	"time"
 
 	"github.com/honeytrap/honeytrap/event"
@@ -53,6 +54,11 @@ func zzStubBannerString(b *bannerfmt.BannerFmt) string { return "mx.example SMTP
 // Every event must carry the address of the session whose bytes caused it, each message is
 // reported once, and after each Handle has returned no goroutine made for it is left.
 func zzH_C03_smtp() {
+	if !zzSymbolic() {
+		// native twin: one processor, so that a goroutine started by the session runs only when
+		// the session blocks or ends (the schedule the interpreter found first)
+		defer runtime.GOMAXPROCS(runtime.GOMAXPROCS(1))
+	}
 	rec := &zzMRec{}
 	s := SMTP().(*Service)
 	s.SetChannel(rec)
